@@ -464,8 +464,8 @@ func findConsumerOffsetDestination(offsetRing *ring.Ring, request *protocol.Stor
 			// the request is not the newest, so we need to insert it somewhere
 			for {
 				prevSlot = destSlot.Prev()
-				if prevSlot.Value == nil || prevSlot == offsetRing {
-					// Reached a blank slot or the oldest slot in the ring, just replace it
+				if prevSlot.Value == nil {
+					// Reached a blank slot, just replace it
 					return &offsetRingDestination{
 						insertDest: prevSlot,
 						extendDest: nil,
@@ -475,13 +475,22 @@ func findConsumerOffsetDestination(offsetRing *ring.Ring, request *protocol.Stor
 				// Lookback one previous commit
 				prevOrder := prevSlot.Value.(*protocol.ConsumerOffset).Order
 				if prevOrder < request.Order {
-					// Insert here
+					// Insert here. This includes the oldest slot of a full ring: inserting above it pushes it out, and
+					// lets the min-distance merge consider it as the previous commit like any other
 					return &offsetRingDestination{
 						insertDest: destSlot,
 						extendDest: offsetRing,
 					}
 				} else if prevOrder == request.Order {
 					return nil
+				}
+
+				if prevSlot == offsetRing {
+					// Reached the oldest slot in the ring, just replace it
+					return &offsetRingDestination{
+						insertDest: prevSlot,
+						extendDest: nil,
+					}
 				}
 
 				// else Request is older than prevSlot; keep searching
